@@ -14,4 +14,5 @@ open IrVerif.Scope
 #print axioms IrVerif.Scope.C03_roundtrip_ext_graph
 #print axioms IrVerif.Scope.C03_roundtrip_ext_devices
 #print axioms IrVerif.Scope.C03_ext_certificate_decidable
-#print axioms IrVerif.Scope.C03_roundtrip_ext_partial
+#print axioms IrVerif.Scope.C03_roundtrip_ext_model
+#print axioms IrVerif.Scope.C03_roundtrip_ext
